@@ -45,7 +45,7 @@ type Contract struct {
 	Opts         map[string]string
 	WriteSites   []WriteSite
 	ReplayAssume []Clause
-	Lets     [][2]string // textual macros: name, expression
+	Lets         [][2]string // textual macros: name, expression
 }
 
 type ContractSet struct {
